@@ -14,6 +14,8 @@ func main() {
 		kernelMain(os.Args[2:])
 	case "wrap":
 		wrapMain(os.Args[2:])
+	case "ez":
+		ezMain(os.Args[2:])
 	default:
 		fmt.Fprintln(os.Stderr, "unknown subcommand", os.Args[1])
 		os.Exit(2)
